@@ -26,8 +26,10 @@ func readRPMPackage(data []byte) (r *rpm.PackageFile, err error) {
 }
 
 // rpmCountsPlausible walks the lead and the two header structures and refuses headers whose index count or store
-// length exceeds the bytes that follow, or whose entries announce more items than the store has bytes. go-rpm
-// allocates make([]T, ItemCount) straight from the file, so a 150-byte file could otherwise demand gigabytes.
+// length exceeds the bytes that follow, or whose entries together announce more items than the store has bytes
+// (every item occupies at least one byte of the store and entries do not overlap). go-rpm allocates
+// make([]T, ItemCount) straight from the file for every entry, so a 150-byte file could otherwise demand
+// gigabytes, and many entries pointing at the same bytes an amount quadratic in the file size.
 func rpmCountsPlausible(data []byte) bool {
 	off := 96 // the lead
 	for h := 0; h < 2; h++ {
@@ -40,9 +42,11 @@ func rpmCountsPlausible(data []byte) bool {
 		if n > avail/16 || l > avail-16*n {
 			return false
 		}
+		items := uint64(0)
 		for i := uint64(0); i < n; i++ {
 			e := data[uint64(off)+16+16*i:]
-			if uint64(binary.BigEndian.Uint32(e[12:16])) > l {
+			items += uint64(binary.BigEndian.Uint32(e[12:16]))
+			if items > l {
 				return false
 			}
 		}
